@@ -389,9 +389,21 @@ def wsig_params(rng):
     if len(kn) > 255 or not T.valid_name(kn):
         kn = b"\x03key\x00"
     ts, st, fudge, oid, err = rand_time(rng), rand_time(rng), rand_fudge(rng), rng.randrange(65536), rand_error(rng)
+    # EDNS: set_edns (+ set_extended_rcode) together with the TSIG; the OPT RR precedes the TSIG RR and is signed
+    edns = None
+    if rng.random() < 0.5:
+        edns = (rng.choice([512, 1232, 4096, 0, 65535, rng.randrange(65536)]),
+                rng.choice([0, 0, 1, 16, 23, 2047, 2048, 2049, 4095, rng.randrange(4096)]), rng.choice([0, 0, 1]))
+    E = "E=" + (":".join(str(x) for x in edns) if edns else "-")
     head = (f"wsig {mode} {alg} {hx(key)} {hx(pmac)} {rng.randrange(65536)} {rng.choice([0, 1])} {hx(qname)} "
-            f"{rng.choice([1, 2, 6, 16, 252])} {','.join(rrs) or '-'} {hx(kn)} {hx(u48(ts))} {fudge} {oid} {err} {hx(u48(st))}")
-    return head, dict(mode=mode, alg=alg, key=key, pmac=pmac, kn=kn, ts=ts, st=st, fudge=fudge, oid=oid, err=err)
+            f"{rng.choice([1, 2, 6, 16, 252])} {','.join(rrs) or '-'} {hx(kn)} {hx(u48(ts))} {fudge} {oid} {err} {hx(u48(st))} {E}")
+    return head, dict(mode=mode, alg=alg, key=key, pmac=pmac, kn=kn, ts=ts, st=st, fudge=fudge, oid=oid, err=err, edns=edns)
+
+
+def py_opt_rr(payload, xr):
+    """RFC 6891 §6.1.2/6.1.3: root, TYPE 41, CLASS payload, TTL = upper 8 bits of the 12-bit extended RCODE |
+    version 0 | flags 0, RDLEN 0"""
+    return b"\x00" + u16(41) + u16(payload) + bytes([xr >> 4, 0, 0, 0]) + u16(0)
 
 
 def wsig_cases(rng, n):
@@ -416,6 +428,12 @@ def wsig_cases(rng, n):
         if pre is None:
             yield f"{head} pre=- pyd=- pym=- X:-"       # the Writer refused or panicked: reported by the diff with the model
             continue
+        body = pre
+        if q["edns"]:
+            # the case line carries the octets before the OPT RR; what must be signed is that plus the OPT RR
+            # of RFC 6891 (it precedes the TSIG RR, RFC 8945 4.3.2), whatever the Writer actually wrote there
+            body = pre[:-11] if len(pre) >= 23 else pre
+            pre = body + py_opt_rr(q["edns"][0], q["edns"][1])
         other = u48(q["st"]) if q["err"] == 18 else b""
         if q["mode"] == "un":
             rdata = T.tsig_rdata(T.ALG_NAME[q["alg"]], q["ts"], q["fudge"], b"", q["oid"], q["err"], other)
@@ -424,7 +442,7 @@ def wsig_cases(rng, n):
             rdata, full, d = T.sign(q["mode"], q["alg"], q["key"], pre, q["kn"], q["ts"], q["fudge"], q["oid"], q["err"], other, q["pmac"])
             mac = hx(full)
         exp = f"ok pre={hx(pre)} owner={hx(T.lower(q['kn']))} type=250 class=255 ttl=0 rdata={hx(rdata)} mac={mac}"
-        yield f"{head} pre={hx(pre)} pyd={hx(d)} pym={hx(full)} {X(exp)}"
+        yield f"{head} pre={hx(body)} pyd={hx(d)} pym={hx(full)} {X(exp)}"
 
 
 def gen(rng, tier):
@@ -443,7 +461,7 @@ def gen(rng, tier):
         c = vfy_case(rng)
         if c:
             yield c
-    yield from sweep_cases(rng, 150 if quick else 5000)
+    yield from sweep_cases(rng, 120 if quick else 5000)
 
 
 def exp_of(case):
@@ -487,6 +505,8 @@ def classify(case, impl, model, oracle):
         tag = ":" + ":".join(case.rsplit(" T:", 1)[1].split(":")[:2])
     if op in ("sign", "vfy", "wsig"):
         op += ":" + f[1]
+    if op.startswith("wsig") and " E=" in case and " E=-" not in case:
+        op += ":edns"
     if op.startswith("read"):
         return "read:" + ("valid" if impl.startswith("val=ok") else "invalid") + ":" + impl.split(" tf=")[1].split()[0] + \
             ("-" + impl.split(" tf=")[1].split()[1] if " tf=err" in impl else "")
@@ -495,7 +515,8 @@ def classify(case, impl, model, oracle):
 
 THEOREMS = ["c11_sign_digest_eq", "c11_sign", "c11_read", "c11_verify_digest_eq", "c11_verify", "c11_verify_iff",
             "c11_verify_errors", "c11_check_time_no_overflow", "c11_check_time", "c11_digest_injective",
-            "c11_tamper_rejected", "c11_try_from_total", "c11_verify_total"]
+            "c11_tamper_rejected", "c11_try_from_total", "c11_verify_total", "c11_finish_edns_tsig",
+            "c11_finish_plain_tsig"]
 
 CHECK = {
     "property": "C11",
@@ -506,14 +527,14 @@ CHECK = {
         "name": "lib", "impl_bin": "impl_c11", "extract": "Extract/ExC11.v", "driver": "run_c11.ml",
         "gen": gen, "nontrivial": nontrivial, "classify": classify, "oracle_ok": oracle_ok,
         "exhaustive": {"quick": False, "thorough": False},
-        "rule": ("seeded cases against the library API: Writer-built messages (questions, A/TXT/NS/MX records, name compression, key names sharing a suffix with the QNAME) signed by set_tsig + finish_with_mac in all four modes and read back with the Reader; sign_request/response/subsequent on random messages (consistent and "
+        "rule": ("seeded cases against the library API: Writer-built messages (questions, A/TXT/NS/MX records, name compression, key names sharing a suffix with the QNAME; half of them with set_edns + set_extended_rcode incl. values >= 2048, before or after set_tsig, so that an OPT RR precedes the TSIG RR and must be under the MAC) signed by set_tsig + finish_with_mac in all four modes and read back with the Reader; sign_request/response/subsequent on random messages (consistent and "
                  "inconsistent headers, ARCOUNT borrow cases, too-short / ARCOUNT=0 messages), keys of 0..200 octets, both "
                  "algorithms, times 0..2^48-1, fudges, original IDs, error codes incl. BADTIME other-data, prior MACs incl. "
                  ">65535 octets; unsigned(); ReadTsigRr::try_from + accessors + validate_as_tsig on valid and mangled RDATA, "
                  "wrong type/class/TTL; new_from_read; verify_* on messages signed by the Python signer with MACs truncated "
                  "to allowed/disallowed lengths, now at time-signed +-fudge +-{0,1}, wrong key/prior MAC/mode, flipped "
                  "octets; and a sweep: single-octet corruption at EVERY position of the message, the key name and the "
-                 "RDATA of ~150 signed messages (all three modes) - every covered octet must be rejected (T:cov), "
+                 "RDATA of ~120 signed messages (all three modes) - every covered octet must be rejected (T:cov), "
                  "every uncovered one (message ID, letter case, fields outside the subsequent-message digest) must "
                  "still verify (T:unc). The implementation's answer must equal the model's (HMAC table from hashlib) "
                  "and the prediction of checks/tsig_py.py; non-trivial = a signature was produced, a verification "
